@@ -459,8 +459,12 @@ PrintObj ==
 \* write() leaves the object alone and produces WriterModel(obj); c3d(path) builds ReaderModel(bytes).
 \* Enabled where the reader model is defined for the written bytes (every byte it consumes exists).
 ReloadPath == "reload.c3d"
+\* known finding C05 empty-shape-frames, seen from the file: without points and channels the header cannot say how many frames there are
+\* (its frame count is derived from the data size), so POINT:FRAMES of such an object stands alone; what its file loads back to is not
+\* specified (the save + load action is not enabled there, as for the gap frames)
+KF_ShapelessFrames(o) == o.hdr.npts = 0 /\ HdrAnalogs(o.hdr) = 0 /\ (Len(o.frm) > 0 \/ Val1(o.grp, sPOINT, sFRAMES) # 0)
 Reload ==
-  /\ MandHeader(obj.grp)
+  /\ MandHeader(obj.grp) /\ ~KF_ShapelessFrames(obj)
   /\ IF ~Fits(obj) THEN Done(obj, [op |-> "Reload", path |-> ReloadPath], "range_error", <<>>)     \* refused before anything is written
      ELSE LET b == WriterModel(obj)  r == ReaderModel(b) IN
           /\ ReaderDefined(b) /\ r.out \in {"ok", "ios_failure", "invalid_argument"}
@@ -569,7 +573,14 @@ NamesTrimmed ==
 \* C01: what was saved is what loads back (content: names upper-cased, everything else bit for bit)
 HasGapFrame(o) == \E i \in 1..Len(o.frm) : ~Filled(o.frm[i])
 \* known finding C01/C03 gap-frames-on-disk: empty frames created by extension are written as nothing
-KF_GapFramesOnDisk(o) == HasGapFrame(o)
+\* (the same holds for a frame that was stored empty and later received only part of the declared shape - a point column, but none of
+\* the analog sub-frames the header announces: every frame is written as it is, the reader expects the declared shape per frame)
+FrameCarriesShape(o, f) ==
+  /\ Len(f.p) = o.hdr.npts
+  /\ IF HdrAnalogs(o.hdr) > 0 /\ o.hdr.perframe > 0
+       THEN Len(f.a) = o.hdr.perframe /\ \A s \in 1..Len(f.a) : Len(f.a[s]) = HdrAnalogs(o.hdr)
+       ELSE \A s \in 1..Len(f.a) : Len(f.a[s]) = 0          \* no sample where the header announces none
+KF_GapFramesOnDisk(o) == HasGapFrame(o) \/ \E i \in 1..Len(o.frm) : ~FrameCarriesShape(o, o.frm[i])
 \* known finding C01 zero-point-rate-with-analogs: the number of sub-frames per frame is not stored in the parameters; the reader
 \* derives it from ANALOG:RATE / POINT:RATE and assumes 1 when POINT:RATE is 0, so analog data with several sub-frames per frame
 \* saved while POINT:RATE is still 0 does not load back (the carve-out is exactly that state class)
@@ -593,7 +604,7 @@ SaveIdempotent ==
         /\ WriterModel(r2.obj) = b2                                 \* and the next save is byte-identical
 \* the three I/O invariants with the file model evaluated once per state (TLC does not share work between invariants)
 IOInv ==
-  (MandHeader(obj.grp) /\ Fits(obj) /\ ~KF_GapFramesOnDisk(obj) /\ ~KF_ZeroPointRateWithAnalogs(obj)) =>
+  (MandHeader(obj.grp) /\ Fits(obj) /\ ~KF_GapFramesOnDisk(obj) /\ ~KF_ZeroPointRateWithAnalogs(obj) /\ ~KF_ShapelessFrames(obj)) =>
      LET b1 == WriterModel(obj)  r1 == ReaderModel(b1)
          c01 == r1.out = "ok" /\ r1.end = Len(b1) /\ Content(r1.obj) = Content(obj)
          c03 == SelfConsistentKF(b1, obj)
